@@ -38,6 +38,8 @@ pub struct Ctl {
     pub woken: Vec<AtomicBool>,
     /// when false, hook events are recorded but threads do not stop at them (coarse mode)
     pub stop_at_hooks: AtomicBool,
+    /// when set, only hook events with these names are stops
+    pub stop_labels: Mutex<Option<std::collections::HashSet<String>>>,
 }
 
 #[derive(Debug)]
@@ -55,6 +57,7 @@ impl Ctl {
             cv: Condvar::new(),
             woken: (0..n).map(|_| AtomicBool::new(false)).collect(),
             stop_at_hooks: AtomicBool::new(true),
+            stop_labels: Mutex::new(None),
         })
     }
 
@@ -170,7 +173,13 @@ pub fn install_sink(ctl: Arc<Ctl>, tid: usize) {
         }
         ctl.record(Value::Object(o));
         if ctl.stop_at_hooks.load(Ordering::Relaxed) {
-            ctl.gate(tid, ev.name);
+            let stop = match &*ctl.stop_labels.lock().unwrap() {
+                Some(set) => set.contains(ev.name),
+                None => true,
+            };
+            if stop {
+                ctl.gate(tid, ev.name);
+            }
         }
     });
     scylla::verif::trace::install_local(Some(sink));
